@@ -337,6 +337,17 @@ func c14Eval(p *Program, r *Report) {
 			}
 		}
 		r.Check(hasB && hasO, "R-C14-3", fnName(vb)+"/isAllowed.arg:resource", p.Pos(c.Pos()), "resource built from bucket and object", "the resource string is not built from both the bucket and the object parameters")
+		// resource names are opaque strings: built by plain concatenation, never normalised
+		norm := ""
+		for _, rt := range Origins(a[2], nil) {
+			if rt.Kind == "via" || rt.Kind == "call" {
+				switch rt.Desc {
+				case "path.Join", "path.Clean", "path/filepath.Join", "path/filepath.Clean", "strings.TrimSuffix", "strings.TrimPrefix", "strings.Trim", "strings.TrimRight", "strings.TrimLeft", "strings.ToLower", "strings.ToUpper", "strings.ReplaceAll", "net/url.PathUnescape", "net/url.QueryUnescape":
+					norm = rt.Desc
+				}
+			}
+		}
+		r.Check(norm == "", "R-C14-3", fnName(vb)+"/resource-is-opaque", p.Pos(c.Pos()), "bucket + \"/\" + object, unmodified", "the resource string matched against policy patterns is normalised with "+norm+": keys with trailing '/', '//' or dot segments are matched as a different resource than the one the request names (a Deny on a prefix is bypassed)")
 	}
 }
 
@@ -350,6 +361,8 @@ func controlsC14() []Control {
 			Old: "\t\terr = auth.ValidatePolicyDocument(ctx.Body(), bucket, c.iam)\n\t\tif err != nil {", New: "\t\terr = auth.ValidatePolicyDocument(ctx.Body(), bucket, c.iam)\n\t\tif err != nil && c.debug {", Expect: "PutBucketPolicy"},
 		{Name: "BucketPolicyItem.Validate drops the Principals verdict", Rule: "R-C14-2", File: "auth/bucket_policy.go",
 			Old: "\tif err := bpi.Principals.Validate(iam); err != nil {\n\t\treturn err\n\t}", New: "\tif err := bpi.Principals.Validate(iam); err != nil && iam == nil {\n\t\treturn err\n\t}", Expect: "Principals"},
+		{Name: "VerifyBucketPolicy builds the resource with path.Join", Rule: "R-C14-3", File: "auth/bucket_policy.go",
+			Old: "\tresource := bucket\n\tif object != \"\" {\n\t\tresource += \"/\" + object\n\t}\n", New: "\tresource := filepath.Join(bucket, object)\n", More: []Edit{{"auth/bucket_policy.go", "import (\n", "import (\n\t\"path/filepath\"\n"}}, Expect: "resource-is-opaque"},
 		{Name: "isAllowed: Deny only clears the flag (later Allow wins)", Rule: "R-C14-3", File: "auth/bucket_policy.go",
 			Old: "\t\t\tcase BucketPolicyAccessTypeDeny:\n\t\t\t\treturn false", New: "\t\t\tcase BucketPolicyAccessTypeDeny:\n\t\t\t\tisAllowed = false", Expect: "deny-overrides"},
 		{Name: "findMatch ignores the resource", Rule: "R-C14-3", File: "auth/bucket_policy.go",
